@@ -50,7 +50,7 @@ class Stats:
 class Explorer:
     """Depth-first exploration of the feasible paths of `fn` by re-execution under a recorded prefix."""
 
-    def __init__(self, stats=None, base=(), feas_timeout_ms=None, max_paths=200000):
+    def __init__(self, stats=None, base=(), feas_timeout_ms=None, max_paths=200000, shared=None):
         self.decisions = []          # [choice, exhausted]
         self.pos = 0
         self.base = list(base)       # assumptions inherited (nested explorers)
@@ -63,6 +63,8 @@ class Explorer:
         self.aux = []                # auxiliary axioms (sqrt definitions ...) of the current path
         self.decs = []               # branch conditions decided on the current path (subset of pc)
         self.tags = {}               # free-form per-path notes from models (e.g. cumprod cut points)
+        self._own_shared = shared is None
+        self.shared = {} if shared is None else shared   # per ROOT path: definitional symbols shared with nested explorers
 
     # -- solver helpers -------------------------------------------------------------------------
     def _new_solver(self):
@@ -94,9 +96,20 @@ class Explorer:
 
     def axiom(self, cond):
         """definitional axiom for a fresh symbol (always satisfiable extension)"""
+        if any(cond is a for a in self.aux):
+            return
         self.solver.add(cond)
         self.pc.append(cond)
         self.aux.append(cond)
+
+    def define(self, key, make):
+        """symbol defined once per root path (shared with nested explorers); make() -> (symbol, [axioms])"""
+        if key not in self.shared:
+            self.shared[key] = make()
+        sym, axs = self.shared[key]
+        for a in axs:
+            self.axiom(a)
+        return sym
 
     def branch(self, cond):
         """decide a symbolic condition, forking when both sides are feasible"""
@@ -159,6 +172,8 @@ class Explorer:
                 self.aux = []
                 self.decs = []
                 self.tags = {}
+                if self._own_shared:
+                    self.shared.clear()
                 CUR = self
                 try:
                     fn(self)
@@ -464,7 +479,8 @@ class SV:
         if isinstance(o, (SV, int, float, bool, Fraction)) or hasattr(o, 'item'):
             if isinstance(o, float) and (o != o or o in (float('inf'), float('-inf'))):
                 from .ev import EV
-                return NotImplemented
+                x, y = EV.of(self), EV.of(o)
+                return f(x, y)      # the same python operator on the float model
             a, b = _arith(self.e, lift(o))
             return SB(f(a, b))
         return NotImplemented
